@@ -1501,6 +1501,11 @@ PRODUCERS = [
     (r'^yash_builtin::read::input::', 'a character of the line read by `read`',
      [('SoftExpansion', T, Fa), ('SoftExpansion', Fa, T), ('SoftExpansion', Fa, Fa)]),
 ]
+# forms a producer MAY use (accepted, not demanded): the join separator rebuilt with struct-update syntax, its quoting computed from
+# the adjoining fields (fix a6e85c3, decided by C04.R4b)
+OPTIONAL_KINDS = {
+    r'^yash_semantics::expansion::phrase::': [(('copy', 'origin'), 'var', ('copy', 'is_quoting'), ('copy', 'value'))],
+}
 # the only code allowed to change attributes after construction: function -> {field: written value}
 ATTR_WRITERS = {
     'yash_semantics::expansion::initial::word::double_quote::quote_field': {'is_quoted': T},
@@ -1572,7 +1577,7 @@ def r5(cx):
                              'globbed and quote-removed correctly is not established' % triple, loc=body.loc(s))
                 continue
             ok = False
-            for allowed in spec[0][2]:
+            for allowed in list(spec[0][2]) + OPTIONAL_KINDS.get(spec[0][0], []):
                 if allowed[:3] == triple and (len(allowed) == 3 or allowed[3] == d['value']):
                     ok = True
             if not ok:
